@@ -643,6 +643,11 @@ class HandshakeSettings(object):
             raise ValueError("minVersion set incorrectly")
         if other.maxVersion not in KNOWN_VERSIONS:
             raise ValueError("maxVersion set incorrectly")
+        unknown_versions = [i for i in other.versions
+                            if i not in KNOWN_VERSIONS]
+        if unknown_versions:
+            raise ValueError("Unknown protocol versions in versions: {0}"
+                             .format(unknown_versions))
 
         if other.maxVersion < (3, 4):
             other.versions = [i for i in other.versions if i < (3, 4)]
@@ -691,7 +696,8 @@ class HandshakeSettings(object):
         if ECPointFormat.uncompressed not in other.ec_point_formats:
             raise ValueError("Uncompressed EC point format is not provided")
 
-        if other.dc_sig_algs in DELEGETED_CREDENTIAL_FORBIDDEN_ALG:
+        if [i for i in other.dc_sig_algs
+                if i in DELEGETED_CREDENTIAL_FORBIDDEN_ALG]:
             raise ValueError("The usage of the algorithm is forbidden "
                              "to use with delegated credentials")
         if other.dc_valid_time > DC_VALID_TIME:
